@@ -54,7 +54,7 @@ ASCII_COMPAT = [e for e in ENCODINGS if e not in WIDE]
 
 @st.composite
 def cases(draw):
-    enc = draw(st.sampled_from(sorted(ENCODINGS)))
+    enc = draw(st.sampled_from(sorted(ENCODINGS) + ["utf-8"] * 4))
     names, texts = ENCODINGS[enc]
     wide = enc in WIDE
     bom = draw(st.booleans()) if enc in BOMS else False
@@ -118,6 +118,33 @@ def cases(draw):
             meta_order = "content-first"
             a1, a2 = a2, a1
         meta = "<meta %s %s%s" % (a1, a2, close)
+    # announcements of lower priority that name ANOTHER encoding: they
+    # must lose (order: byte-order mark, XML declaration, meta, default)
+    lies = []
+    others = [e for e in ASCII_COMPAT if e != enc]
+    if announce == "bom" and not wide and decl and "encoding" in decl and \
+            draw(st.integers(0, 3)) > 0:
+        other = draw(st.sampled_from(others))
+        name = draw(st.sampled_from(ENCODINGS[other][0]))
+        decl = decl.replace(decl_enc, name)
+        lies.append("decl")
+    if announce in ("bom", "decl") and not wide and meta is None and \
+            draw(st.integers(0, 3)) == 0:
+        other = draw(st.sampled_from(others))
+        meta = '<meta http-equiv="Content-Type" content="text/html; ' \
+            'charset=%s" />' % draw(st.sampled_from(ENCODINGS[other][0]))
+        lies.append("meta")
+    if announce in ("bom", "decl", "meta", "prefix") and \
+            default_encoding is None and draw(st.integers(0, 3)) == 0:
+        default_encoding = draw(st.sampled_from(others))
+        lies.append("default")
+    # white space in front of everything: the document does not START with
+    # an XML declaration then (only where the declaration is not what tells
+    # the encoding)
+    lead = ""
+    if announce in ("meta", "default") or (announce == "bom" and not wide
+                                           and "decl" not in lies):
+        lead = draw(st.sampled_from(["", "", "", "\n", " ", "\r\n\t"]))
     nl = draw(st.sampled_from(["\n", "\r\n", "\r"]))
     body_bits = draw(st.lists(st.sampled_from(
         texts + ["a", "x y", "&amp;", "<b>b</b>", "<i title='t'>i</i>",
@@ -133,7 +160,7 @@ def cases(draw):
         "body": body_bits, "value": draw(st.sampled_from(texts + ["<v>"])),
         "flag": draw(st.booleans()),
         "cls": draw(st.sampled_from(["str", "str", "file"])),
-        "lead_nl": draw(st.booleans()),
+        "lead": lead, "lies": lies,
         # a long comment in the head pushes the meta element far into the
         # document
         "pad": draw(st.sampled_from([0, 0, 0, 900, 1100, 5000])),
@@ -142,7 +169,7 @@ def cases(draw):
 
 def document(case):
     nl = case["nl"]
-    parts = []
+    parts = [case.get("lead", "")]
     if case["decl"]:
         parts.append(case["decl"] + nl)
     parts.append("<html><head>")
@@ -184,6 +211,10 @@ class Bytes(Part):
             yield "meta_content_first"
         if case["meta"] and case["xml"]:
             yield "xml_with_meta"
+        for l in case.get("lies", ()):
+            yield "lie_" + l
+        if case.get("lead"):
+            yield "leading_space"
         if case["meta"] and "=text" in case["meta"].replace(
                 "=application", "=text"):
             yield "meta_unquoted"
@@ -256,7 +287,7 @@ class Bytes(Part):
             return Mismatch("bytes:differs from str", dict(
                 info, got=out.value, expected=ref_out.value))
         # absolute expectations about the mode
-        is_xml = case["decl"] is not None
+        is_xml = case["decl"] is not None and not case.get("lead")
         want_type = "text/xml" if is_xml else None
         if is_xml:
             if t.content_type != "text/xml":
@@ -313,7 +344,9 @@ CHECK = Check(
     parts=[Bytes()],
     stages=[FuzzStage("checks.c17", "bytes", 20000)],
     assumptions=[
-        "documents are self-consistent (announced = actual encoding)",
+        "the announcement of highest priority is the truth (the bytes are in "
+        "that encoding); announcements of lower priority may name another "
+        "encoding and must lose",
         "an XML declaration without encoding combined with a meta charset "
         "is not generated (XML says UTF-8, the property's order says meta: "
         "ambiguous)",
